@@ -400,3 +400,13 @@ package ugo
 
 //@ func ToInterface
 //@ property C20
+
+// ---------------------------------------------------------------------------
+// C19: safety sweep of builtin function bodies: for any well-formed arguments
+// (non-nil Objects, as the VM and the typed adapters in zfuncs.go deliver
+// them) no Go panic. Not swept yet: append, bytes, chars, contains, printf,
+// sprintf, :makeArray.
+
+//@ func builtinDeleteFunc, builtinCopyFunc, builtinRepeatFunc, builtinLenFunc, builtinCapFunc, builtinSortFunc, builtinSortReverseFunc, builtinErrorFunc, builtinTypeNameFunc, builtinBoolFunc, builtinIntFunc, builtinUintFunc, builtinFloatFunc, builtinCharFunc, builtinStringFunc, builtinPrintlnFunc, builtinGlobalsFunc, builtinIsErrorFunc, builtinIsIntFunc, builtinIsUintFunc, builtinIsFloatFunc, builtinIsCharFunc, builtinIsBoolFunc, builtinIsStringFunc, builtinIsBytesFunc, builtinIsMapFunc, builtinIsSyncMapFunc, builtinIsArrayFunc, builtinIsUndefinedFunc, builtinIsFunctionFunc, builtinIsCallableFunc, builtinIsIterableFunc
+//@ requires $args
+//@ property C19
